@@ -10,8 +10,10 @@ from sa.facts import load_program
 
 patch = os.path.abspath(sys.argv[1])
 props = sys.argv[2:] or sorted(registry.PROPERTIES)
-base_dirs = sorted(glob.glob(os.path.join(VERIF, '.work', '*', 'facts')), key=os.path.getmtime)
-base_prog = load_program(base_dirs[-1])
+import re
+out = subprocess.run([os.path.join(VERIF, 'check'), 'C10', '--no-evidence'], capture_output=True, text=True, cwd=VERIF).stdout
+hx = re.search(r'facts ([0-9a-f]+) ', out).group(1)
+base_prog = load_program(os.path.join(VERIF, '.work', hx, 'facts'))
 scratch = tempfile.mkdtemp(prefix='samlang-eval-')
 try:
     copy = os.path.join(scratch, 'repo')
